@@ -98,6 +98,82 @@ def run_all(prog, fn, this, args, limit=4000):
     return enumerate_paths(run, limit=limit)
 
 
+def rule_merge_optimum(chk, prog):
+    from ..microai.poly import r_add, r_sub, r_mul, r_div
+    r = chk.rule("MERGE-OPTIMUM", "Block::merge(b, c, dist) interpreted symbolically on a block of two variables absorbing a block of one and of two "
+                 "(weights, desired positions, offsets, and -- in libvpsc -- per-variable scales and the two blocks' reference scales all "
+                 "symbolic): afterwards every variable belongs to the receiving block with its offset shifted by dist, and the block position "
+                 "is again the stationary point of the weighted least-squares objective over ALL its variables -- the accumulated sums AD, "
+                 "AB, A2 are those of the union, whatever the two blocks' scales", floor=4)
+    for ns in ("vpsc", "Avoid"):
+        fns = [f for f in prog.fns(ns + "::Block::merge") if f.body and len(f.params) == 3]
+        if len(fns) != 1:
+            raise AnalysisBroken("%s::Block::merge(b, c, dist) not found" % ns)
+        fn = fns[0]
+        for scaled in ((False, True) if ns == "vpsc" else (False,)):
+            for kb in (1, 2):
+                r.count()
+                va = [mkvar(ns, i, scaled) for i in range(2)]
+                vb = [mkvar(ns, 2 + i, scaled) for i in range(kb)]
+                A = mkblock(ns, va, scaled)
+                B = mkblock(ns, vb, scaled)
+                if scaled:
+                    B.f["ps"].f["scale"] = Poly.var("T")
+                    # B's own sums for its own reference scale (mkblock used S): recompute
+                    S = B.f["ps"].f["scale"]
+                    AB = AD = A2 = Fraction(0)
+                    for v in vb:
+                        a = r_div(S, v.f["scale"])
+                        bi = r_div(v.f["offset"], v.f["scale"])
+                        AB = r_add(AB, r_mul(r_mul(v.f["weight"], a), bi))
+                        AD = r_add(AD, r_mul(r_mul(v.f["weight"], a), v.f["desiredPosition"]))
+                        A2 = r_add(A2, r_mul(r_mul(v.f["weight"], a), a))
+                    B.f["ps"].f["AB"], B.f["ps"].f["AD"], B.f["ps"].f["A2"] = AB, AD, A2
+                B.f["posn"] = Poly.var("posnB")
+                c = mkcon(ns, va[1], vb[0], 0)
+                c.f["active"] = False
+                inst = "%s::Block::merge, block of 2 absorbs block of %d%s" % (ns, kb, ", scaled" if scaled else "")
+                try:
+                    rows = run_all(prog, fn, A, [B, c, Poly.var("dist")])
+                except Unsupported as e:
+                    raise AnalysisBroken("%s outside the interpreter subset: %s" % (inst, e))
+                bad = None
+                for val, descr, out in rows:
+                    if out[0] == "throw" and "division by zero" in out[1]:
+                        continue
+                    if out[0] != "ret":
+                        if out[0] == "assert" and "NOTNAN" in out[1].upper():
+                            continue
+                        bad = bad or "path ends in %s: %s" % (out[0], out[1])
+                        continue
+                    bb, (b2, c2, _d) = out[2], out[3]
+                    if scaled and to_poly(bb.f["ps"].f["scale"]) != to_poly(Poly.var("S")):
+                        continue        # the `A2 == 0` branch of addVariable (a block without weight): infeasible for positive weights
+                    vs_all = bb.f["vars"].items
+                    if len(vs_all) != 2 + kb:
+                        bad = bad or "the receiving block has %d variables afterwards, expected %d" % (len(vs_all), 2 + kb)
+                        continue
+                    posn = bb.f["posn"]
+                    S = to_poly(bb.f["ps"].f["scale"])
+                    total = Fraction(0)
+                    for i_, v in enumerate(vs_all):
+                        if v.f["block"] is not bb:
+                            bad = bad or "variable %d does not point to the receiving block" % v.f["id"]
+                        want_o = to_poly(Poly.var("o%d" % v.f["id"])) + (to_poly(Poly.var("dist")) if v.f["id"] >= 2 else 0)
+                        if to_poly(v.f["offset"]) != want_o:
+                            bad = bad or "offset of variable %d is %r, expected %r" % (v.f["id"], v.f["offset"], want_o)
+                        s_i = to_poly(v.f["scale"])
+                        w, o, d = to_poly(v.f["weight"]), to_poly(v.f["offset"]), to_poly(v.f["desiredPosition"])
+                        x = r_div(r_add(r_mul(S, posn), o), s_i)
+                        total = r_add(total, r_mul(r_mul(w, r_div(S, s_i)), r_sub(x, d)))
+                    tn, td = num_den(total)
+                    if tn != Poly.const(0):
+                        bad = bad or "the merged block's position is not the least-squares stationary point of its %d variables" % len(vs_all)
+                    if c2.f["active"] is not True or b2.f["deleted"] is not True:
+                        bad = bad or "the merging constraint is not activated / the absorbed block not marked deleted"
+                (r.bad if bad else r.ok)(inst, fn.where(), bad or "%d paths" % len(rows))
+
+
 def rule_block_optimum(chk, prog):
     r = chk.rule("BLOCK-OPTIMUM", "after Block::updateWeightedPosition (and after addVariable on a fresh block) the block position satisfies "
                  "sum_i w_i (S/s_i) ((S*posn + o_i)/s_i - d_i) = 0, the stationarity condition of the weighted least-squares objective "
@@ -644,6 +720,7 @@ def run(chk):
     chk.guard(rule_split_scale, chk, prog)
     chk.guard(rule_split_threshold, chk, prog)
     chk.guard(rule_block_optimum, chk, prog)
+    chk.guard(rule_merge_optimum, chk, prog)
     chk.guard(rule_minlm_argmin, chk, prog)
     chk.guard(rule_refine_rescan, chk, prog)
     chk.guard(rule_solve_exit, chk, prog)
